@@ -7,7 +7,7 @@ from .. import fam_pipeline as fp
 from .. import gen_models as gm
 from .. import pipeline as pl
 
-THEOREMS = ["C19.other_subgraphs_untouched"]
+THEOREMS = ["C19.other_subgraphs_untouched", "C19.performer_local", "C19.hcodes_needed"]
 
 
 def gen(rng, i):
@@ -25,7 +25,7 @@ def run(ctx):
                 "subgraph i of quantize(model) is compared structurally (ops by builtin code and tensor names, dtypes, quantization parameters, "
                 "sha256 of constant bytes) with subgraph 0 of quantize(extracted single-subgraph model) using the same recipe and the "
                 "statistics restricted to that subgraph; pipeline compared with the Lean model; distinct = distinct (model, recipe)")
-    common.proof_side(ctx, THEOREMS)
+    common.proof_side(ctx, THEOREMS, modules=["QProps.C19", "QProps.C19b"])
     drv = common.Driver()
 
     def per_case(case, res):
